@@ -214,6 +214,12 @@ def replay(case):
         except common.Hang:
             why = "[hang] sudo run did not return"
         return why is None, why or "ok"
+    if kind == "split":
+        try:
+            why = common.with_timeout(split_case, 30, case)
+        except common.Hang:
+            why = "[hang] the run did not return"
+        return why is None, why or "ok"
     p = [tuple(c) for c in case["pat"]]
     if kind == "resp":
         counts = impl_responder(p, case["chunks"])
@@ -246,6 +252,62 @@ def check_runner_case(case):
         if got != want:
             return "watcher %s: %d responses reached stdin, text has %d occurrences (stdout+stderr counted separately)" % (tag, got, want)
     return None
+
+
+def split_case(case):
+    """INTERLEAVING x ENCODING: stdout and stderr both carry non-ASCII text, cut at arbitrary BYTE positions (inside
+    characters too), and the two reader threads are stepped in a scripted order (gate scheduler over the real Runner
+    threads), so a read of one stream lands between the two halves of a character of the other.  Each stream is
+    scanned as its own text: responses = occurrences in stdout + occurrences in stderr, captures = the texts."""
+    import gate
+    from invoke.watchers import Responder
+    pats = case["pats"]
+    ws = [Responder(re.escape(p), str(i)) for i, p in enumerate(pats)]
+    outb = [bytes.fromhex(c) for c in case["out"]]
+    errb = [bytes.fromhex(c) for c in case["err"]]
+    obs = gate.run_schedule(case["schedule"], out=outb, err=errb, watchers=ws, hide=True)
+    if not obs.get("main_done") or obs.get("result", ("?",))[0] != "return":
+        return "the run did not return normally: %r" % (obs.get("result"),)
+    to, te = b"".join(outb).decode("utf-8"), b"".join(errb).decode("utf-8")
+    if obs["cap"] != (to, te):
+        return "captured %r, the streams carried %r" % (obs["cap"], (to, te))
+    sent = obs["child_stdin"].decode()
+    for i, p in enumerate(pats):
+        want = to.count(p) + te.count(p)
+        if sent.count(str(i)) != want:
+            return "watcher for %r: %d responses reached stdin, the two streams hold %d occurrences" % (p, sent.count(str(i)), want)
+    return None
+
+
+def gen_split(rng):
+    pats = rng.sample(["caf\u00e9? ", "\u00f1: ", "\u65e5\u672c>", "ok? "], 2)
+    pats = [p.encode().decode("unicode_escape") for p in pats]
+
+    def text():
+        parts = []
+        for _ in range(rng.randint(1, 3)):
+            parts.append("".join(rng.choice("ab \u00e9\u00f1\u65e5\n".encode().decode("unicode_escape")) for _ in range(rng.randint(0, 4))))
+            parts.append(rng.choice(pats + [""]))
+        return "".join(parts)
+
+    def cutb(b):
+        if not b:
+            return []
+        n = rng.randint(1, min(4, len(b)))
+        idx = sorted(rng.sample(range(1, len(b)), min(n - 1, len(b) - 1))) if len(b) > 1 else []
+        return [b[i:j] for i, j in zip([0] + idx, idx + [len(b)])]
+
+    oc, ec = cutb(text().encode()), cutb(text().encode())
+    groups = [("wo", "out")] * len(oc)
+    eg = [("we", "err")] * len(ec)
+    order = [0] * len(groups) + [1] * len(eg)
+    rng.shuffle(order)
+    sched = []
+    for o in order:
+        w, a = ("wo", "out") if o == 0 else ("we", "err")
+        sched += [w, a, a, a]
+    sched += ["co", "ce", "x0"] + ["out", "err", "main"] * 12
+    return {"kind": "split", "pats": pats, "out": [c.hex() for c in oc], "err": [c.hex() for c in ec], "schedule": sched}
 
 
 # ------------------------------------------------------------------ run
@@ -316,6 +378,16 @@ def run(ctx):
         out.hist["runner"] += 1
         why = check_runner_case(c)
         if why:
+            out.fail(c, why)
+    # two streams with non-ASCII text cut inside characters, reader threads stepped in a scripted interleaving
+    for _ in range(ctx.n(200, 2000)):
+        c = gen_split(rng)
+        mid = any(b"".join(bytes.fromhex(x) for x in c[k][:i]).decode("utf-8", "ignore").encode() != b"".join(bytes.fromhex(x) for x in c[k][:i])
+                  for k in ("out", "err") for i in range(1, len(c[k])))
+        out.case(c, mid)
+        out.hist["split:midchar" if mid else "split:boundary"] += 1
+        ok, why = replay(c)
+        if not ok:
             out.fail(c, why)
     # sudo: the FailingResponder wired up by Context.sudo
     texts = ["[sudo] password: root\n", "[sudo] password: Sorry, try again.\n[sudo] password: ", "hello\n",
